@@ -280,7 +280,7 @@ func (w *Worker) callSync(st *State, fn *ssa.Function, args []Value, bindings ..
 	saved := st.frames
 	var result Value
 	done := false
-	sentinel := &Frame{fn: fn, blk: fn.Blocks[0], env: map[ssa.Value]Value{}, visits: map[int]int{}}
+	sentinel := &Frame{fn: fn, blk: fn.Blocks[0], env: map[ssa.Value]Value{}, visits: map[int]int{}, forks: map[ssa.Instruction]int{}}
 	for i, p := range fn.Params {
 		sentinel.env[p] = args[i]
 	}
@@ -358,7 +358,8 @@ func (w *Worker) sprintf(st *State, format string, args []Value) StrV {
 		}
 		i++
 		if i >= len(format) {
-			panic(engineErr("bad format"))
+			out = strCat(out, strLit("%!(NOVERB)"))
+			break
 		}
 		if format[i] == '#' { // %#v: only used in debugging code
 			i++
@@ -561,6 +562,18 @@ func (w *Worker) intrinsic(st *State, f *Frame, x ssa.Value, callee *ssa.Functio
 		set(w.unicodePred("isLetterX", args[0].(Term)))
 	case "unicode.IsMark":
 		set(w.unicodePred("isMarkX", args[0].(Term)))
+	case "unicode.IsDigit":
+		set(w.unicodePred("isDigitX", args[0].(Term)))
+	case "unicode.IsNumber":
+		set(w.unicodePred("isNumberX", args[0].(Term)))
+	case "unicode.IsSpace":
+		set(w.unicodePred("isSpaceX", args[0].(Term)))
+	case "unicode.IsUpper":
+		set(w.unicodePred("isUpperX", args[0].(Term)))
+	case "unicode.IsLower":
+		set(w.unicodePred("isLowerX", args[0].(Term)))
+	case "unicode.IsPunct":
+		set(w.unicodePred("isPunctX", args[0].(Term)))
 	case "(*strings.Builder).WriteRune":
 		p := args[0].(Ptr)
 		st.builders[p.id] = strCat(st.builders[p.id], StrV{[]Seg{runeSeg(args[1].(Term))}})
@@ -852,11 +865,24 @@ func asciiAtom(t Term) bool {
 
 func (w *Worker) unicodePred(name string, c Term) Term {
 	if v, ok := c.intVal(); ok {
+		r := rune(v)
 		switch name {
 		case "isLetterX":
-			return mkBool(isLetterRune(rune(v)))
-		default:
-			return mkBool(isMarkRune(rune(v)))
+			return mkBool(unicode.IsLetter(r))
+		case "isMarkX":
+			return mkBool(unicode.IsMark(r))
+		case "isDigitX":
+			return mkBool(unicode.IsDigit(r))
+		case "isNumberX":
+			return mkBool(unicode.IsNumber(r))
+		case "isSpaceX":
+			return mkBool(unicode.IsSpace(r))
+		case "isUpperX":
+			return mkBool(unicode.IsUpper(r))
+		case "isLowerX":
+			return mkBool(unicode.IsLower(r))
+		case "isPunctX":
+			return mkBool(unicode.IsPunct(r))
 		}
 	}
 	return app(SBool, name, c)
@@ -940,6 +966,23 @@ func (w *Worker) parseFloat(st *State, set func(Value), s StrV) {
 				acc = bvBin("bvadd", bvBin("bvadd", bvBin("bvshl", acc, mkBV(3, 64), false), bvBin("bvshl", acc, mkBV(1, 64), false), false), d, false)
 			}
 			st.assume(mkImplies(mkAnd(all...), mkNot(failed)))
+			// digits '.' digits (a point with at least one digit on each side) never fails
+			// either: no syntax error, and far from the range limits at this length
+			var shapes []Term
+			for p := 1; p+1 < n; p++ {
+				cs := make([]Term, n)
+				for i, r := range rs {
+					if i == p {
+						cs[i] = is(r, '.')
+					} else {
+						cs[i] = all[i]
+					}
+				}
+				shapes = append(shapes, mkAnd(cs...))
+			}
+			if len(shapes) > 0 {
+				st.assume(mkImplies(mkOr(shapes...), mkNot(failed)))
+			}
 			if st.opts["parsefloat-exact-integers"] {
 				// the correctly rounded value of an integer numeral: round-to-nearest-even of its
 				// exact (unsigned 64-bit) value — the documented contract of strconv.ParseFloat
